@@ -139,6 +139,7 @@ def handle (j : Json) : Except String Json := do
         ("loadStoreRebound", .bool Gen.CacheKeys.loadStoreRebound), ("dbInsertKeyFlat", .bool Gen.CacheKeys.dbInsertKeyFlat),
         ("entityFlushClearsResults", .bool Gen.CacheKeys.entityFlushClearsResults),
         ("extractorsRecheck", .bool Gen.CacheKeys.extractorsRecheck), ("codeobjectsPinned", .bool Gen.CacheKeys.codeobjectsPinned),
-        ("pinsRecordedAtRoot", .bool Gen.CacheKeys.pinsRecordedAtRoot)])
+        ("pinsRecordedAtRoot", .bool Gen.CacheKeys.pinsRecordedAtRoot),
+        ("cachedTranslatorsCopiedBeforeMutation", .bool Gen.CacheKeys.cachedTranslatorsCopiedBeforeMutation)])
   | _ => throw s!"unknown op {op}"
 end PonyVerif.Drive.C05
